@@ -686,7 +686,8 @@ def rule_index_clip(chk, tree):
     if len(ptrs) != 2 or len(ints) != 2:
         raise core.AnalysisError("cider_ind_clip signature changed (expected two arrays, size-1, ngrids)")
     arr, size = ptrs[0]["name"], ints[0]["name"]
-    res = cclamp.ClampLoop(tu, "cider_ind_clip", arr, size).run()
+    res_loop = cclamp.ClampLoop(tu, "cider_ind_clip", arr, size)
+    res = res_loop.run()
     if not res:
         raise core.AnalysisError("cider_ind_clip: no final store into %s found" % arr)
     for idx, v, text, line in res:
@@ -700,6 +701,29 @@ def rule_index_clip(chk, tree):
                           "evaluated on another (stale or earlier) copy of the index does not bound the value "
                           "stored here; the spline evaluators use (int) %s[%s] as a table row without checks"
                           % (arr, idx, " nor by ".join(miss), arr, idx), instance=inst)
+    # the derivative array clamped along with the index: its out-of-range value must be ASSIGNED a constant
+    # (selected), not obtained by arithmetic on the incoming element (which may be +-inf: 0 * inf = nan), and it
+    # must be the constant under every condition under which the index is replaced by a bound
+    cl = res_loop
+    for pname, idx, v, text, line in cl.companions:
+        inst = "cider_ind_clip: %s[%s] is selected (kept or set to a constant) exactly when the index is clamped" % (
+            pname, idx)
+        if v is None:
+            chk.violation("index-clip", CC_REL, "cider_ind_clip", "%s[%s]" % (pname, idx), line,
+                          "the loop clamps %s[%s] but never stores %s[%s]: the derivative of a clamped index is kept"
+                          % (arr, idx, pname, idx), instance=inst)
+        elif cclamp.ARITH in v.src:
+            chk.violation("index-clip", CC_REL, "cider_ind_clip", text, line,
+                          "%s[%s] is obtained by arithmetic on its incoming value (`%s`): multiplying by a 0/1 mask does "
+                          "not clear a non-finite derivative (0 * inf = nan; cider_ind_etb yields +-inf for a "
+                          "vanishing exponent) -- the out-of-range case must assign the constant" % (pname, idx, text),
+                          instance=inst)
+        elif cclamp.INCOMING in v.src and cl.clamp_preds - v.guards:
+            chk.violation("index-clip", CC_REL, "cider_ind_clip", text, line,
+                          "%s[%s] keeps its incoming value under a condition under which the index is replaced by a "
+                          "bound: the derivative is not zeroed for every clamped index" % (pname, idx), instance=inst)
+        else:
+            chk.ok("index-clip", inst, detail=text)
 
 
 # ----------------------------------------------------------------------------
@@ -821,6 +845,12 @@ def mutants(tree):
                expect="index-clip"),
         Mutant("cider_ind_clip: upper clamp compares with ngrids", CC_REL, "cond = di < sizem1;", "cond = di < ngrids;",
                expect="index-clip"),
+        Mutant("cider_ind_clip: derivative multiplied by the in-range mask", CC_REL,
+               "            derivi_g[g] = (cond ? derivi_g[g] : 0);\n            di_g[g] = (cond ? di : dsize);",
+               "            derivi_g[g] *= cond;\n            di_g[g] = (cond ? di : dsize);", expect="index-clip"),
+        Mutant("cider_ind_clip: derivative kept at the upper clamp", CC_REL,
+               "            derivi_g[g] = (cond ? derivi_g[g] : 0);\n            di_g[g] = (cond ? di : dsize);",
+               "            di_g[g] = (cond ? di : dsize);", expect="index-clip"),
         Mutant("cider_ind_clip: lower clamp dropped", CC_REL, "di_g[g] = (cond ? di : 0);", "di_g[g] = di;",
                expect="index-clip"),
         Mutant("v1: per-spin SEP mask merged into the summed-density mask", XE,
